@@ -169,7 +169,7 @@ PROPS = {
         "rules": [traversal.rule_trav(["scc_core_lang::traits::substitution::Subst", "scc_core_lang::traits::substitution::SubstVar",
                                    "scc_core_lang::traits::uniquify::Uniquify", "scc_core_lang::traits::focus::Focusing",
                                    "scc_core_lang::traits::focus::Bind", "scc_core_lang::traits::typed_free_vars::TypedFreeVars"]), wiring.rule_wire_intra, shape.rule_shape,
-                  fresh.rule_fresh, fresh.rule_maxid, fresh.rule_counter, fresh.rule_eta, fresh.rule_shadow, fresh.rule_substscope, focus.rule_bindorder, focus.rule_focus_cut, enums.rule_sort_selfmaps, inputs.rule_useall_for(["scc_core_lang"], 100)],
+                  fresh.rule_fresh, fresh.rule_maxid, fresh.rule_counter, fresh.rule_eta, fresh.rule_shadow, fresh.rule_substscope, focus.rule_bindorder, focus.rule_focus_cut, focus.rule_bindseq, enums.rule_sort_selfmaps, inputs.rule_useall_for(["scc_core_lang"], 100)],
         "text": "Structural necessary conditions of focusing: every Subst/SubstVar/Uniquify/Focusing/Bind/TypedFreeVars impl of Core "
                 "visits every subterm (R-TRAV), uniquify dominates the focusing of definitions (R-WIRE), and only producer-only "
                 "shapes reach the `cannot happen` arms of Term<Cns> (R-SHAPE); a local copy of the identifier counter that is lent to a "
